@@ -14,10 +14,12 @@ the order they were journalled:
                 `p<prev>` WaitForChange(prev), `t` Terminate, `l`/`u`/`v`
                 TrackingLock Lock/Unlock/UnlockWithoutNotify;
 * `x<w>`        the context of `w`'s current call is about to be cancelled;
-* `s<w>=<snap>` `w` released the tracker mutex (end of a critical section);
-                `sT=<snap>` the tracking goroutine did (`Cond.Wait` or exit).
-                `<snap>` = `index,terminated,len(pollRequests)` read while
-                the mutex was still held;
+* `s<w>=<snap>` `w` ran a critical section under the tracker mutex; `sT=<snap>`
+                the tracking goroutine did (one loop body, ended by `Cond.Wait`
+                or by its exit). The record is placed where the mutex was
+                *acquired* (channel sends made inside are visible to others
+                before the release); `<snap>` = `index,terminated,
+                len(pollRequests)` read just before the release;
 * `r<w>=<res>`  `w`'s call returned `<res>` (`index/err` or `-`).
 
 The text after `=` is what was observed; the model ignores it and prints its
